@@ -4,8 +4,8 @@ _SRC13 = ['props/C06/seq13.cc', 'harness/puppet13.cc', 'harness/wraps.c']
 TARGETS = [
     # random: (victim role, client-auth, cert type) x 0..2 deviations x legal framing variations
     dict(name='c06_seq13', src=_SRC13, libs=['-lcrypto'], wraps=_WRAPS, env={'VERIF_DIR': '/verif'},
-         quick=dict(cases=2400, secs=80), thorough=dict(cases=120000, secs=1080)),
+         quick=dict(cases=1800, secs=50), thorough=dict(cases=150000, secs=900)),
     # bounded-exhaustive: every single-step deviation of every legal trace, default framing
     dict(name='c06_seq13_singles', src=_SRC13, libs=['-lcrypto'], wraps=_WRAPS, env={'VERIF_DIR': '/verif'}, defs=['C06_ENUM'], enumerate=True,
-         quick=dict(cases=0, secs=80, stride=1), thorough=dict(cases=0, secs=600, stride=1)),
+         quick=dict(cases=0, secs=50, stride=1), thorough=dict(cases=0, secs=240, stride=1)),
 ]
